@@ -30,4 +30,115 @@ theorem opcode_classes :
     (Opcodes.opcodes.lookup 0x95).map (·.impl) = some "ConditionalJumpOpcode" ∧
     (Opcodes.opcodes.lookup 0x54).map (·.impl) = some "JumpOpcode" := by decide
 
+/-! ### the whole pipeline of one handler -/
+
+/-- events → statement list → `condition_detect` → `loop_detect` -/
+theorem decompileFlow_lower (ss : List Src) (o : Int) (h : Src.oks none o ss = true) :
+    decompileFlow (rawEv o (lower ss)) = .ok (tgtL o ss) := by
+  unfold decompileFlow
+  rw [runEv_rawEv _ o (wf_lower ss none o h)]
+  exact reconstruct ss o h
+
+/-- the model's `parse_opcodes` (opcode loop, then `condition_detect`, then `loop_detect`): whenever the opcode loop leaves the
+    statement list of a compiled skeleton of the class, the handler's statements are the source nesting -/
+theorem parseOpcodes_reconstructs (ctx : Ctx) (d : Bytes) (r : FrbRec) (regs regs' : Regs) (bpc : Nat) (tell : Bool) (st' : PState)
+    (ss : List Src) (o : Int)
+    (h1 : opcodeLoop ctx d r.bcOff r.bcLen r.bcOff regs { bpc := bpc, tell := tell, gvars := r.globals } = .ok (regs', st'))
+    (h2 : st'.stmts = emit false o (lower ss)) (h : Src.oks none o ss = true) :
+    parseOpcodes ctx d r regs bpc tell = .ok (regs', { st' with stmts := tgtL o ss }) := by
+  have hr := reconstruct ss o h
+  unfold parseOpcodes
+  simp only [h1, bind, Except.bind, h2] at hr ⊢
+  cases hc : condDetect (emit false o (lower ss)) with
+  | error e => rw [hc] at hr; cases hr
+  | ok s1 =>
+    rw [hc] at hr
+    simp only at hr ⊢
+    rw [hr]
+    rfl
+
+/-! ### every statement once and in order; no raw jump left -/
+
+theorem codeStmts_simple (c : Node) (h : simpleCode c = true) : codeStmts c = [c] := by
+  obtain ⟨_, _, h1, h2⟩ := simpleCode_spec h
+  cases c <;> first | (exact absurd rfl h1) | (exact absurd rfl h2) | rfl
+
+mutual
+theorem codes_tgtL1 : (x : Src) → ∀ (prev : Option Node) (o : Int), x.ok prev o = true → stmtCodesL (tgtL1 o x) = x.codes1
+  | .simple s, prev, o, h => by
+    obtain ⟨_, h2⟩ := ok_simple.1 h
+    simp [tgtL1, stmtCodesL, stmtCodes, codeStmts_simple _ h2, Src.codes1]
+  | .ifThen csz cond t e, prev, o, h => by
+    obtain ⟨ht, he⟩ := ok_if.1 h
+    simp [tgtL1, stmtCodesL, stmtCodes, codeStmts, Src.codes1, codes_tgtL t _ _ ht, codes_tgtL e _ _ he]
+  | .loop .while_ csz cond body, prev, o, h => by
+    obtain ⟨hb, _, _⟩ := ok_while.1 h
+    simp [tgtL1, stmtCodesL, stmtCodes, codeStmts, Src.codes1, codes_tgtL body _ _ hb]
+  | .loop (.with_ pre incr) csz cond body, prev, o, h => by
+    obtain ⟨_, _, _, _, hb, hsome, _⟩ := ok_with.1 h
+    obtain ⟨⟨pl, pr, vn, sg⟩, hparts⟩ := Option.isSome_iff_exists.1 hsome
+    simp [tgtL1, hparts, stmtCodesL, stmtCodes, codeStmts, Src.codes1, codes_tgtL body _ _ hb]
+  | .loop (.in_ presz bp incrsz postsz) csz cond body, prev, o, h => by
+    obtain ⟨_, _, hb, hsome, _⟩ := ok_in.1 h
+    obtain ⟨⟨start, vn, fl⟩, hparts⟩ := Option.isSome_iff_exists.1 hsome
+    simp [tgtL1, hparts, stmtCodesL, stmtCodes, codeStmts, Src.codes1, codes_tgtL body _ _ hb]
+theorem codes_tgtL : (ss : List Src) → ∀ (prev : Option Node) (o : Int), Src.oks prev o ss = true →
+    stmtCodesL (tgtL o ss) = Src.codes ss
+  | [], _, _, _ => by simp [tgtL, stmtCodesL, Src.codes]
+  | x :: xs, prev, o, h => by
+    obtain ⟨hx, hxs⟩ := oks_cons.1 h
+    have stmtCodesL_append : ∀ a b : List Node, stmtCodesL (a ++ b) = stmtCodesL a ++ stmtCodesL b := by
+      intro a b
+      induction a with
+      | nil => simp [stmtCodesL]
+      | cons y a ih => simp [stmtCodesL, ih]
+    rw [tgtL_cons, stmtCodesL_append, codes_tgtL1 x prev o hx, codes_tgtL xs _ _ hxs]
+    simp [Src.codes]
+end
+
+mutual
+theorem codes1_simple : (x : Src) → ∀ (prev : Option Node) (o : Int), x.ok prev o = true → ∀ c ∈ x.codes1, simpleCode c = true
+  | .simple s, prev, o, h, c, hc => by
+    obtain ⟨_, h2⟩ := ok_simple.1 h
+    simp [Src.codes1] at hc; subst hc; exact h2
+  | .ifThen csz cond t e, prev, o, h, c, hc => by
+    obtain ⟨ht, he⟩ := ok_if.1 h
+    simp only [Src.codes1, List.mem_append] at hc
+    rcases hc with hc | hc
+    · exact codes_simple t _ _ ht c hc
+    · exact codes_simple e _ _ he c hc
+  | .loop .while_ csz cond body, prev, o, h, c, hc => by
+    obtain ⟨hb, _, _⟩ := ok_while.1 h
+    exact codes_simple body _ _ hb c (by simpa [Src.codes1] using hc)
+  | .loop (.with_ pre incr) csz cond body, prev, o, h, c, hc => by
+    obtain ⟨_, _, _, _, hb, _, _⟩ := ok_with.1 h
+    exact codes_simple body _ _ hb c (by simpa [Src.codes1] using hc)
+  | .loop (.in_ presz bp incrsz postsz) csz cond body, prev, o, h, c, hc => by
+    obtain ⟨_, _, hb, _, _⟩ := ok_in.1 h
+    exact codes_simple body _ _ hb c (by simpa [Src.codes1] using hc)
+theorem codes_simple : (ss : List Src) → ∀ (prev : Option Node) (o : Int), Src.oks prev o ss = true →
+    ∀ c ∈ Src.codes ss, simpleCode c = true
+  | [], _, _, _, c, hc => by simp [Src.codes] at hc
+  | x :: xs, prev, o, h, c, hc => by
+    obtain ⟨hx, hxs⟩ := oks_cons.1 h
+    simp only [Src.codes, List.mem_append] at hc
+    rcases hc with hc | hc
+    · exact codes1_simple x prev o hx c hc
+    · exact codes_simple xs _ _ hxs c hc
+end
+
+/-! ### the one coincidence of the compile scheme -/
+
+theorem lower_append (a b : List Src) : lower (a ++ b) = lower a ++ lower b := by
+  induction a with
+  | nil => simp [lower]
+  | cons x a ih => simp [lower, ih]
+
+/-- `repeat with v = a to b … end repeat` and `set v = a / repeat while v <= b … set v = 1 + v / end repeat` lower to the SAME
+    skeleton (same bytes): the decompiler cannot tell them apart, it prints the first -/
+theorem with_lowers_as_while (pre incr : Smp) (csz : Nat) (cond : Node) (body : List Src) :
+    lower1 (.loop (.with_ pre incr) csz cond body) =
+      lower1 (.simple pre) ++ lower1 (.loop .while_ csz cond (body ++ [.simple incr])) := by
+  simp [lower1, lower_append, lower]
+
 end Drx.LinkFlow
